@@ -40,6 +40,7 @@ type history struct {
 	Axis   int         `json:"axis"`
 	Fields []histField `json:"fields"`
 	Steps  []histStep  `json:"steps"`
+	Sparse string      `json:"sparse_block_set,omitempty"` // set by the sparse phase: name of the non-box block set
 }
 
 var marchers = []string{"March", "MarchParallel", "MarchOnAttribute", "MarchOnAttributeParallel"}
@@ -227,9 +228,10 @@ func clusteredTriangles(a, b *meshData) (onlyA, onlyB int, first string) {
 	return
 }
 
-func historyCase(c *run.Ctx) run.Result {
+func historyCase(c *run.Ctx) run.Result { return runHistory(c, genHistory(c)) }
+
+func runHistory(c *run.Ctx, hs *history) run.Result {
 	var res run.Result
-	hs := genHistory(c)
 	res.Sample = hs
 	attr := modeling.PositionAttribute
 	fields := make([]marching.Field, len(hs.Fields))
@@ -271,6 +273,7 @@ func historyCase(c *run.Ctx) run.Result {
 	var added []int
 	blocksAtLastMarch := -1
 	newBlocksSinceMarch := false
+	missingDiagonal := false
 	marches := 0
 	for si, step := range hs.Steps {
 		desc := hs.describe(si)
@@ -397,10 +400,25 @@ func historyCase(c *run.Ctx) run.Result {
 		}
 		res.SetAdd("history_marchers", step.API)
 		blocksAtLastMarch = len(st.Blocks)
+		// a block with two axis neighbours but without the diagonal one between them (block set is not a box)
+		for b := range st.Blocks {
+			for i := 0; i < 3; i++ {
+				for j := i + 1; j < 3; j++ {
+					bi, bj, bij := b, b, b
+					bi[i]++
+					bj[j]++
+					bij[i]++
+					bij[j]++
+					if st.Blocks[bi] && st.Blocks[bj] && !st.Blocks[bij] {
+						missingDiagonal = true
+					}
+				}
+			}
+		}
 
 		// the same fields on a fresh canvas, added in one go
 		last := si == len(hs.Steps)-1
-		if len(res.Violations) == 0 && (last || c.Rng.Intn(2) == 0) {
+		if len(res.Violations) == 0 && hs.Sparse == "" && (last || c.Rng.Intn(2) == 0) {
 			var fresh modeling.Mesh
 			if p := run.Try(func() {
 				cv := marching.NewMarchingCanvas(hs.CPU)
@@ -429,6 +447,16 @@ func historyCase(c *run.Ctx) run.Result {
 				res.SetAdd("history_adders", s.Adder)
 			}
 		}
+	}
+	if hs.Sparse != "" {
+		res.Count("sparse_block_scenes", 1)
+		res.SetAdd("sparse_block_set_shapes", hs.Sparse)
+		if missingDiagonal {
+			res.Count("sparse_scenes_with_a_missing_diagonal_neighbour", 1)
+		}
+		res.Nontrivial = marches >= 1
+		res.Sig = fmt.Sprintf("sparse %s cpu%s n%d", hs.Sparse, cpuBucket(hs.CPU), len(hs.Fields))
+		return res
 	}
 	res.Count("histories", 1)
 	res.Count("history_fields_combined_from_a_reused_slice", int64(unions))
